@@ -4,6 +4,9 @@ package main
 // and modular calls through contracts.
 
 import (
+	"path/filepath"
+	"runtime"
+	"sync"
 	"os"
 	"bytes"
 	"fmt"
@@ -248,7 +251,28 @@ func (u *Unit) safetyTags(kind string) []string {
 	return nil
 }
 
+var specNoPrune = os.Getenv("GOVC_SPECPRUNE") == ""
+var qsites = map[string]int{}
+var qsiteMu sync.Mutex
+var debugQSites = os.Getenv("GOVC_QSITE") != ""
+
 func (u *Unit) feasible(st *State) bool {
+	if debugQSites {
+		var pcs [6]uintptr
+		n := runtime.Callers(2, pcs[:])
+		fr := runtime.CallersFrames(pcs[:n])
+		var parts []string
+		for {
+			f, more := fr.Next()
+			parts = append(parts, fmt.Sprintf("%s:%d", filepath.Base(f.File), f.Line))
+			if !more {
+				break
+			}
+		}
+		qsiteMu.Lock()
+		qsites[strings.Join(parts, " < ")]++
+		qsiteMu.Unlock()
+	}
 	return u.inc.Feasible(st.hyps())
 }
 
@@ -1245,7 +1269,7 @@ func (u *Unit) run(st *State, fr *Frame, b *ssa.BasicBlock, idx int) []Outcome {
 						s.assume(m)
 					}
 					f.symBranch = true
-					if !u.feasible(s) {
+					if !(u.specMode > 0 && specNoPrune) && !u.feasible(s) {
 						return
 					}
 				}
@@ -1547,9 +1571,13 @@ func (u *Unit) typeAssert(st *State, fr *Frame, in *ssa.TypeAssert) ([]Outcome, 
 			}
 			c := Eq(iv.Tag, IntK(int64(u.eng.typeID(T))))
 			anyMatch = Or(anyMatch, c)
+			kt := u.knownTag(st, iv.Tag, iv.Typ)
+			if kt != nil && kt != c {
+				continue // the path already fixes a different dynamic type
+			}
 			s2 := st.clone()
 			s2.assume(c)
-			if !u.feasible(s2) {
+			if kt == nil && !u.feasible(s2) {
 				continue
 			}
 			var v Value
@@ -1568,6 +1596,12 @@ func (u *Unit) typeAssert(st *State, fr *Frame, in *ssa.TypeAssert) ([]Outcome, 
 		}
 		s3 := st.clone()
 		s3.assume(Not(anyMatch))
+		if kt := u.knownTag(st, iv.Tag, iv.Typ); kt != nil {
+			if len(outs) == 0 {
+				outs = append(outs, mk(s3, u.zero(s3, in.AssertedType), False))
+			}
+			return outs, true
+		}
 		if u.feasible(s3) {
 			outs = append(outs, mk(s3, u.zero(s3, in.AssertedType), False))
 		}
@@ -1578,6 +1612,24 @@ func (u *Unit) typeAssert(st *State, fr *Frame, in *ssa.TypeAssert) ([]Outcome, 
 	}
 	u.unsupported("typeassert on %T", x)
 	return nil, false
+}
+
+// knownTag: if the path condition contains, as a literal conjunct, the equation fixing the dynamic type of an
+// interface value with tag `tag`, returns that equation (syntactic fast path that saves solver queries).
+func (u *Unit) knownTag(st *State, tag *Term, it types.Type) *Term {
+	if tag.C != nil {
+		return nil
+	}
+	cands := map[*Term]bool{}
+	for _, T := range u.eng.implementers(it) {
+		cands[Eq(tag, IntK(int64(u.eng.typeID(T))))] = true
+	}
+	for i := len(st.pc) - 1; i >= 0; i-- {
+		if cands[st.pc[i]] {
+			return st.pc[i]
+		}
+	}
+	return nil
 }
 
 func (u *Unit) enter(st *State, fr *Frame, b *ssa.BasicBlock) []Outcome {
